@@ -1144,13 +1144,16 @@ class Index(IndexBase):
             self._update_array_cache()
 
         # do not need to pass on composabel here
-        return ufunc_axis_skipna(
+        post = ufunc_axis_skipna(
                 array=self._labels,
                 skipna=skipna,
                 axis=0,
                 ufunc=ufunc,
                 ufunc_skipna=ufunc_skipna
                 )
+        if post.__class__ is np.ndarray: # cumulative functions return an array
+            post.flags.writeable = False
+        return post
 
     # _ufunc_shape_skipna defined in IndexBase
 
